@@ -556,6 +556,12 @@ def external(fr, dotted, args, kw, extra, n):
         if name in ('greater', 'greater_equal', 'less', 'less_equal', 'equal', 'not_equal') and len(args) == 2:
             op = {'greater': 'Gt', 'greater_equal': 'GtE', 'less': 'Lt', 'less_equal': 'LtE', 'equal': 'Eq', 'not_equal': 'NotEq'}[name]
             return T.cmp_(op, args[0], args[1])
+        if name == 'repeat' and len(args) == 2 and not kw and T.isconst(args[1]) and isinstance(args[1][1], int) and 0 < args[1][1] <= 8:
+            src = T.strip_nd(a0)
+            if src[0] == 'call' and src[1] == 'astype' and src[2] and T.strip_nd(src[2][0])[0] == 'map':
+                src = T.strip_nd(src[2][0])             # an element-type conversion of the per-row values does not change which value is repeated
+            if src[0] == 'map':
+                return ('nd', ('concatmap', src[1], ('list', (src[2],) * args[1][1])))   # each element repeated k times in place
         if name == 'where' and len(args) == 3 and not kw:
             # np.where(c, a, b): element i is a[i] where c[i] holds, else b[i]  (== [a[i] if c[i] else b[i] for i ...])
             n_ = next((T.length(x) for x in (args[2], args[1], args[0]) if not T.scalar_value(x)), None)
